@@ -503,6 +503,34 @@ func (e *Env) evalCall(c *ast.CallExpr) Val {
 			e.fail("atiter() used outside a loop step/invariant")
 		}
 		return e.withCur(e.iterSnap).eval(arg(0))
+	case "sentch", "recvch":
+		// the channel the last value of that key was sent on / received from
+		key := exprString(arg(0))
+		if g, ok := e.st.ghostInt[name+":"+key+"#0"]; ok {
+			return Val{T: e.x.chanElem[name+":"+key], L: []Term{g}}
+		}
+		return Val{T: tyUntypedNil, L: []Term{rnil}}
+	case "nrecv", "lastrecv":
+		key := exprString(arg(0))
+		if name == "nrecv" {
+			if t, ok := e.st.ghostInt["recv:"+key]; ok {
+				return intVal(t)
+			}
+			return intVal("0")
+		}
+		if t, ok := e.x.chanElem["lastrecv:"+key]; ok {
+			v := Val{T: t}
+			z := zeroVal(t)
+			for i := range leavesOf(t) {
+				if g, ok := e.st.ghostInt[fmt.Sprintf("lastrecv:%s#%d", key, i)]; ok {
+					v.L = append(v.L, g)
+				} else {
+					v.L = append(v.L, z.L[i])
+				}
+			}
+			return v
+		}
+		e.fail("lastrecv(%s): nothing is received from that channel on this path", key)
 	case "nsent", "lastsent", "tablewrites", "domatunlock", "domatlock":
 		// engine-maintained ghost counters, keyed by "Type.field" written as a selector
 		key := exprString(arg(0))
@@ -513,6 +541,15 @@ func (e *Env) evalCall(c *ast.CallExpr) Val {
 			}
 			return intVal("0")
 		case "lastsent":
+			if et, ok := e.x.chanElem["lastsent:"+key]; ok && len(leavesOf(et)) > 1 {
+				if _, ok := e.st.ghostInt["lastsent:"+key+"#0"]; ok {
+					v := Val{T: et}
+					for i := range leavesOf(et) {
+						v.L = append(v.L, e.st.ghostInt[fmt.Sprintf("lastsent:%s#%d", key, i)])
+					}
+					return v
+				}
+			}
 			if t, ok := e.st.ghostInt["lastsent:"+key]; ok {
 				return Val{T: types.NewPointer(types.NewStruct(nil, nil)), L: []Term{t}}
 			}
